@@ -25,6 +25,10 @@
 (*   vals : Seq([n |-> name, v |-> bytes])   (distinct names)              *)
 (*   cq   : Q    Q = Seq([k |-> bytes, vs |-> Seq(bytes)]) (distinct keys  *)
 (*                   for cq; base/pattern queries may repeat a key)        *)
+(*   opauth : BOOLEAN  the operation has an auth writer; aq : Q the query   *)
+(*                   parameters it sets (client.APIKeyAuth(name,"query",v)) *)
+(*   dq   : Q        those of Runtime.DefaultAuthentication (used when the *)
+(*                   operation has no auth writer)                         *)
 (*   rs, os : Seq(STRING)  schemes of the runtime / of the operation       *)
 (***************************************************************************)
 EXTENDS Integers, Sequences, FiniteSets, TLC
@@ -40,6 +44,7 @@ CONSTANT Variant
   \* "substfirst"  substitution before path.Join
   \* "revprec"     base-path query wins over pattern query
   \* "memoscheme"  the scheme chosen for the first request of a Runtime is remembered for all later ones
+  \* "earlysnapshot" the "set by the caller" snapshot of the query is taken before the auth writer runs
   \* "seqfixed"    the repair with sequential ReplaceAll instead of one pass (a value that
   \*               looks like a placeholder is substituted again, order-dependent)
 
@@ -242,11 +247,20 @@ StaticQuery(in) ==
      THEN [k \in DOMAIN b \cup DOMAIN p |-> IF k \in DOMAIN b THEN b[k] ELSE p[k]]
      ELSE [k \in DOMAIN b \cup DOMAIN p |-> IF k \in DOMAIN p THEN p[k] ELSE b[k]]
 
+\* the auth writer in force (createHttpRequest: the default only when the operation has none) runs after the
+\* params writer; SetQueryParam replaces
+AuthQuery(in) == IF in.opauth THEN in.aq ELSE in.dq
+Override(c, a) == [k \in DOMAIN c \cup DOMAIN a |-> IF k \in DOMAIN a THEN a[k] ELSE c[k]]
+
+\* originalParams := r.GetQueryParams()   -- after WriteToRequest AND the auth writer
 \* for k, v := range staticQueryParams { if _, present := originalParams[k]; !present { r.SetQueryParam(k, v...) } }
 CodeQuery(in) ==
   LET s == StaticQuery(in)
       c == ToValues(in.cq)
-  IN [k \in DOMAIN s \cup DOMAIN c |-> IF k \in DOMAIN c THEN c[k] ELSE s[k]]
+      a == ToValues(AuthQuery(in))
+      q == Override(c, a)                                        \* r.query when the URL is assembled
+      snapshot == IF Variant = "earlysnapshot" THEN c ELSE q
+  IN [k \in DOMAIN s \cup DOMAIN q |-> IF k \in DOMAIN s /\ k \notin DOMAIN snapshot THEN s[k] ELSE q[k]]
 
 \* Runtime.selectScheme / pickScheme
 SelectScheme(ss) ==
@@ -313,17 +327,19 @@ PairValues(ps, k) == IF ps = <<>> THEN <<>>
 \* caller over pattern over base path, per key
 StaticValues(in, k) ==
   IF k \in Keys(in.pat.query) THEN ValuesFor(in.pat.query, k) ELSE ValuesFor(in.base.query, k)
+\* "set by the caller" = set on the request, by the params writer or by the auth writer in force (the latter last)
 ExpectedValues(in, k) ==
-  IF k \in Keys(in.cq) THEN ValuesFor(in.cq, k) ELSE StaticValues(in, k)
+  IF k \in Keys(AuthQuery(in)) THEN ValuesFor(AuthQuery(in), k)
+  ELSE IF k \in Keys(in.cq) THEN ValuesFor(in.cq, k) ELSE StaticValues(in, k)
 
 \* named deviation CallerEmptyListOverrides (allow-both): SetQueryParam(k) without any value makes
 \* the key absent even when it is fixed statically - the code's reading of "overridden"; the
 \* statement does not say whether an empty list overrides, so the static values are accepted too.
 ValuesAllowed(in, k, vs) ==
   \/ vs = ExpectedValues(in, k)
-  \/ k \in Keys(in.cq) /\ ValuesFor(in.cq, k) = <<>> /\ vs = StaticValues(in, k)
+  \/ k \notin Keys(AuthQuery(in)) /\ k \in Keys(in.cq) /\ ValuesFor(in.cq, k) = <<>> /\ vs = StaticValues(in, k)
 
-AllKeys(in) == Keys(in.cq) \cup Keys(in.pat.query) \cup Keys(in.base.query)
+AllKeys(in) == Keys(in.cq) \cup Keys(AuthQuery(in)) \cup Keys(in.pat.query) \cup Keys(in.base.query)
 
 QueryOK(in, rq) ==   \* rq = URL.RawQuery
   /\ RawQueryValid(rq)
